@@ -74,6 +74,12 @@ func (b *block) seek(cmp comparer.Comparer, rstart, rlimit int, key []byte) (ind
 		// The smallest key is greater-than key sought.
 		index = rstart
 	}
+	if index >= b.restartsLen {
+		// An empty restart range behind the last restart point (a slice
+		// that starts past the last entry): there is no restart point to
+		// read, what follows the restart array is its length.
+		return index, b.restartsOffset, nil
+	}
 	offset = int(binary.LittleEndian.Uint32(b.data[b.restartsOffset+4*index:]))
 	return
 }
